@@ -22,6 +22,14 @@ Line-protocol front end of the C12 model (requests after the leading `C12` field
              `p<item,…>` per path argument `!` (no mount) or `<target>:<path handed to its file system>`,
              `t<target>:<tmp>:<pattern>` temporary directory
 
+  vproc <cwd> <env> <tmp> <home> <cache> <config> <host> <pid> <uid> <args> <mounts> <flags> <stdin> <steps>
+                              a script under a `VirtualOS` with process-level options: flags = letters
+                              `h` exit handler, `o` stdout, `e` stderr, `u` zero user, `g` zero group (or `-`);
+                              stdin hex; further steps `exit:none|c<int>|err|bad|many`, `stdinread`,
+                              `outw:<hex>`, `errw:<hex>`, `print:<hex>`, `curuser`, `luser:<hex>`, `lgroup:<hex>`
+      reply: one field per step as for `vsess` (`A` the script ends here, `~` not executed), then
+             `H<handler codes,>;<stdout hex>;<stderr hex>;<real exit codes,>` (`-` for an empty list)
+
 The model runs on the inventory and facts regenerated from the source on this run
 (`Generated.C12`), which `Ties.lean` proves equal to the reviewed ones the theorems are about.
 -/
@@ -130,6 +138,18 @@ def parseVOp (s : String) : Option V.VOp :=
     let p ← fromHex p
     pure (.mkdirTemp d p)
   | ["opaque"] => some .opaque
+  | ["exit", "none"] => some (.exit .none)
+  | ["exit", "err"] => some (.exit .err)
+  | ["exit", "bad"] => some (.exit .badType)
+  | ["exit", "many"] => some (.exit .tooMany)
+  | ["exit", n] => if n.startsWith "c" then (n.drop 1).toInt?.map fun i => V.VOp.exit (.code i) else none
+  | ["stdinread"] => some .stdinRead
+  | ["outw", t] => (fromHex t).map V.VOp.stdoutWrite
+  | ["errw", t] => (fromHex t).map V.VOp.stderrWrite
+  | ["print", t] => (fromHex t).map V.VOp.print
+  | ["curuser"] => some .currentUser
+  | ["luser", x] => (fromHex x).map V.VOp.lookupUser
+  | ["lgroup", x] => (fromHex x).map V.VOp.lookupGroup
   | _ => none
 
 def showVOut : V.Out → String
@@ -144,6 +164,7 @@ def showVOut : V.Out → String
       | some m => toHexField m.1 ++ ":" ++ toHexField m.2)
   | .temp t tmp pat => "t" ++ toHexField t ++ ":" ++ toHexField tmp ++ ":" ++ toHexField pat
   | .any => "*"
+  | .abort => "A"
 
 def handleVSess : List String → String
   | [cwd, env, tmp, home, cache, confd, host, pid, uid, args, mounts, steps] =>
@@ -152,13 +173,37 @@ def handleVSess : List String → String
         (steps.splitOn ";").mapM parseVOp with
     | some cwd, some env, some tmp, some home, some cache, some confd, some host, some pid, some uid,
         some args, some mounts, some ops =>
-      let c : V.Cfg := ⟨cwd, env, tmp, home, cache, confd, host, pid, uid, args, mounts⟩
+      let c : V.Cfg := ⟨cwd, env, tmp, home, cache, confd, host, pid, uid, args, mounts,
+        false, [], false, false, false, false⟩
       "\t".intercalate ((V.vrun c ops).map showVOut)
     | _, _, _, _, _, _, _, _, _, _, _, _ => "error\tbad-request"
   | _ => "error\tbad-request"
 
+def showInts (l : List Int) : String :=
+  if l.isEmpty then "-" else ",".intercalate (l.map toString)
+
+def handleVProc : List String → String
+  | [cwd, env, tmp, home, cache, confd, host, pid, uid, args, mounts, flags, stdin, steps] =>
+    match fromHex cwd, hexEnv env, fromHex tmp, fromHex home, fromHex cache, fromHex confd,
+        fromHex host, pid.toNat?, uid.toNat?, hexList args, hexList mounts, fromHex stdin,
+        (steps.splitOn ";").mapM parseVOp with
+    | some cwd, some env, some tmp, some home, some cache, some confd, some host, some pid, some uid,
+        some args, some mounts, some stdin, some ops =>
+      let has (ch : Char) : Bool := flags.toList.contains ch
+      let c : V.Cfg := ⟨cwd, env, tmp, home, cache, confd, host, pid, uid, args, mounts,
+        has 'h', stdin, has 'o', has 'e', has 'u', has 'g'⟩
+      let ans := (V.vscript c ops).map showVOut
+      let pad := List.replicate (ops.length - ans.length) "~"
+      let h := V.hostView Risor.Generated.C12.virtualSinks c ops
+      "\t".intercalate (ans ++ pad ++
+        ["H" ++ showInts h.handled ++ ";" ++ toHexField h.stdout ++ ";" ++ toHexField h.stderr ++ ";" ++
+          showInts h.realExit])
+    | _, _, _, _, _, _, _, _, _, _, _, _, _ => "error\tbad-request"
+  | _ => "error\tbad-request"
+
 def handle : List String → String
   | "vsess" :: rest => handleVSess rest
+  | "vproc" :: rest => handleVProc rest
   | ["hist", evs, path, opn] =>
     match (evs.splitOn ",").mapM parseEv, opOfName opn with
     | some evs, some o =>
